@@ -4,7 +4,9 @@ Theorems (Props/C06.v) on the machines of Ops/Aggregates.v (derived operators
 composed exactly as the code pipes them, via the composition theorem); tie: K2
 (hot source, non-conforming tails, raising callbacks); oracle: the equivalent
 Python computation on the implementation's output."""
+import functools
 import json
+import random
 from fractions import Fraction
 
 import k2
@@ -139,9 +141,36 @@ def ops_table(values=None):
         return dict(py=ops.all(p), coq=f"op_all {p.gallina()}", spec=("all", p), **BOOL)
     T["all"] = g_all
 
+    def eq_cmp_family(rng):
+        """equality comparer parameter (contains, sequence_equal), symmetric in its arguments:
+        None (default_comparer, ==), 'same id modulo m', or an arbitrary relation given by a predicate table
+        on (id a + id b) mod K that may raise.
+        -> (python callable | None, Gallina text, ref(a, b) -> ('ok', bool) | ('raise', code), kind)"""
+        kind = rng.choice(["default", "default", "modm", "table"])
+        if kind == "default":
+            return None, eq_cmp, (lambda a, b: ("ok", a == b)), kind
+        if kind == "modm":
+            m = rng.choice([2, 3])
+            ref = lambda a, b: ("ok", pool.id(a) % m == pool.id(b) % m)
+            g = f"(fun a b => Ok ((a mod {m}) =? (b mod {m})))"
+        else:
+            p = k2.rand_pred(rng, pool)
+            ref = lambda a, b: p.at((pool.id(a) + pool.id(b)) % K)
+            g = f"(fun a b => {p.gallina()} ((a + b) mod {K}))"
+
+        def cmp(a, b):
+            k2.CALLS.append(k2.CURRENT_TAG[0])
+            r = ref(a, b)
+            if r[0] == "raise":
+                raise UserError(r[1])
+            return r[1]
+        return cmp, g, ref, kind
+
     def g_contains(rng):
         v = pool.val(rng.randrange(K))
-        return dict(py=ops.contains(v), coq=f"op_contains {eq_cmp} {gz(pool.id(v))}", spec=("contains", v), **BOOL)
+        cmp, g, ref, kind = eq_cmp_family(rng)
+        py = ops.contains(v) if cmp is None else ops.contains(v, cmp)
+        return dict(py=py, coq=f"op_contains {g} {gz(pool.id(v))}", spec=("contains", v, ref, kind), **BOOL)
     T["contains"] = g_contains
 
     T["is_empty"] = lambda rng: dict(py=ops.is_empty(), coq="op_is_empty", spec=("is_empty",), **BOOL)
@@ -174,10 +203,63 @@ def ops_table(values=None):
     T["to_dict"] = g_to_dict
 
     # numeric
-    sub_cmp = "(fun x y => Ok (if x >? y then 1 else if x =? y then 0 else -1))"
-    T["sum"] = lambda rng: dict(py=ops.sum(), coq="op_sum", spec=("sum",), **ZN)
-    T["min"] = lambda rng: dict(py=ops.min(), coq=f"op_min {sub_cmp}", spec=("min",), **ZN)
-    T["max"] = lambda rng: dict(py=ops.max(), coq=f"op_max {sub_cmp}", spec=("max",), **ZN)
+    base_cmp = "(if x >? y then 1 else if x =? y then 0 else -1)"
+    sub_cmp = f"(fun x y => Ok {base_cmp})"
+
+    def sub_cmp_family(rng):
+        """three-way comparer parameter of min / max / min_by / max_by over integers: None (default), the
+        reversed order, the order of the residues modulo m (a preorder: distinct values compare equal), a
+        comparer returning magnitudes other than +-1, or the default order raising on some pairs.
+        -> (python callable | None, Gallina text, ref(a, b) -> ('ok', int) | ('raise', code), kind)"""
+        kind = rng.choice(["default", "default", "reversed", "mod", "scaled", "raising"])
+        sign = lambda a, b: (a > b) - (a < b)
+        if kind == "default":
+            return None, sub_cmp, (lambda a, b: ("ok", sign(a, b))), kind
+        if kind == "reversed":
+            ref = lambda a, b: ("ok", sign(b, a))
+            g = "(fun x y => Ok (if y >? x then 1 else if y =? x then 0 else -1))"
+        elif kind == "mod":
+            m = rng.choice([2, 3, 5])
+            ref = lambda a, b: ("ok", sign(a % m, b % m))
+            g = (f"(fun x0 y0 => Ok (let x := x0 mod {m} in let y := y0 mod {m} in {base_cmp}))")
+        elif kind == "scaled":
+            ref = lambda a, b: ("ok", (a - b) * 3)
+            g = "(fun x y => Ok ((x - y) * 3))"
+        else:
+            r = rng.randrange(7)
+            ref = lambda a, b: ("raise", 52) if (a + b) % 7 == r else ("ok", sign(a, b))
+            g = f"(fun x y => if (x + y) mod 7 =? {r} then Raise 52 else Ok {base_cmp})"
+
+        def cmp(a, b):
+            k2.CALLS.append(k2.CURRENT_TAG[0])
+            x = ref(a, b)
+            if x[0] == "raise":
+                raise UserError(x[1])
+            return x[1]
+        return cmp, g, ref, kind
+
+    def int_key(rng):
+        """key mapper from pool values (None, '', () ... included) to small integers, sometimes raising"""
+        entries = {i: ("ok", rng.randrange(-6, 12)) for i in range(K)}
+        if rng.random() < 0.3:
+            for i in rng.sample(range(K), 2):
+                entries[i] = ("raise", 53)
+        return k2.Table(pool, entries, ("ok", 0), gz)
+
+    def g_sum(rng):
+        if rng.random() < 0.5:
+            return dict(py=ops.sum(), coq="op_sum", spec=("sum",), **ZN)
+        key = int_key(rng)                        # _sum.py: map(key_mapper) ; sum()
+        return dict(py=ops.sum(key), coq=f"op_sum_key {key.gallina()}", ty="Z", eqb="Z.eqb", enc=gz,
+                    spec=("sum_key", key))
+    T["sum"] = g_sum
+
+    def g_minmax(rng, which):
+        cmp, g, ref, kind = sub_cmp_family(rng)
+        op = getattr(ops, which)
+        return dict(py=(op() if cmp is None else op(cmp)), coq=f"op_{which} {g}", spec=(which, ref, kind), **ZN)
+    T["min"] = lambda rng: g_minmax(rng, "min")
+    T["max"] = lambda rng: g_minmax(rng, "max")
 
     def g_minmax_by(rng):
         which = rng.choice(["min_by", "max_by"])
@@ -190,22 +272,51 @@ def ops_table(values=None):
             return x % m
         kg = (f"(fun x => if x =? {raise_on} then Raise 51 else Ok (x mod {m}))" if raise_on is not None
               else f"(fun x => Ok (x mod {m}))")
-        return dict(py=getattr(ops, which)(key), coq=f"op_{which} {kg} {sub_cmp}", ty="(list Z)",
-                    eqb="(list_eqb Z.eqb)", enc=lambda v: glist(v), pool=npool, spec=(which, key), snapshot=True)
+        cmp, g, ref, kind = sub_cmp_family(rng)
+        op = getattr(ops, which)
+        return dict(py=(op(key) if cmp is None else op(key, cmp)), coq=f"op_{which} {kg} {g}", ty="(list Z)",
+                    eqb="(list_eqb Z.eqb)", enc=lambda v: glist(v), pool=npool, spec=(which, key, ref, kind),
+                    snapshot=True)
     T["min_max_by"] = g_minmax_by
 
+    AVG = dict(ty="(Z * Z)", eqb="(fun m i => (fst m * snd i =? fst i * snd m) && negb (snd m =? 0))", enc=avg_enc)
+
     def g_average(rng):
-        return dict(py=ops.average(), coq="op_average_pair (fun x => Ok x)", ty="(Z * Z)",
-                    eqb="(fun m i => (fst m * snd i =? fst i * snd m) && negb (snd m =? 0))",
-                    enc=avg_enc,
-                    pool=npool, spec=("average",))
+        if rng.random() < 0.5:
+            return dict(py=ops.average(), coq="op_average_pair (fun x => Ok x)", pool=npool, spec=("average",), **AVG)
+        key = int_key(rng)                        # _average.py: key_mapper instead of float()
+        return dict(py=ops.average(key), coq=f"op_average_pair {key.gallina()}", spec=("average_key", key), **AVG)
     T["average"] = g_average
 
     def g_seq_equal(rng):
-        second = [pool.val(rng.randrange(4)) for _ in range(rng.choice([0, 1, 2, 3]))]
-        return dict(py=ops.sequence_equal(second),
-                    coq=f"op_sequence_equal_iter {eq_cmp} {glist([pool.id(v) for v in second])}",
-                    spec=("sequence_equal", second), small_values=True, **BOOL)
+        second_ids = [rng.randrange(4) for _ in range(rng.choice([0, 1, 2, 3, 4]))]
+        second = [pool.val(i) for i in second_ids]
+        cmp, g, ref, kind = eq_cmp_family(rng)
+
+        def gen_inputs(rng, maxlen=7):
+            """the source: the second sequence, often changed in one place / longer / shorter"""
+            ids = list(second_ids)
+            r = rng.random()
+            if ids and r < 0.25:
+                ids[rng.randrange(len(ids))] = rng.randrange(K)
+            elif r < 0.4:
+                ids.append(rng.randrange(K))
+            elif ids and r < 0.55:
+                ids.pop()
+            elif r > 0.9:
+                ids = [rng.randrange(K) for _ in range(rng.choice([1, 2, 3]))]
+            ins = [("N", pool.val(i)) for i in ids]
+            t = rng.random()
+            if t < 0.65:
+                ins.append(("C",))
+            elif t < 0.85:
+                ins.append(("E", UserError(rng.choice([11, 12]))))
+            if rng.random() < 0.2:
+                ins.append(rng.choice([("N", pool.val(rng.randrange(K))), ("C",), ("E", UserError(13))]))
+            return ins
+        py = ops.sequence_equal(second) if cmp is None else ops.sequence_equal(second, cmp)
+        return dict(py=py, coq=f"op_sequence_equal_iter {g} {glist(second_ids)}",
+                    spec=("sequence_equal", second, ref, kind), small_values=True, gen_inputs=gen_inputs, **BOOL)
     T["sequence_equal"] = g_seq_equal
     return pool, T
 
@@ -293,12 +404,17 @@ def expected(spec, xs, term, pool):
             q = spec[1]
             p = lambda x: not q(x)
         else:
-            v = spec[1]
-            p = lambda x: x == v
+            v, ref = spec[1], spec[2]
+
+            def p(x):
+                r = ref(x, v)            # the comparers of the family are symmetric
+                if r[0] == "raise":
+                    raise RefRaise(r[1])
+                return r[1]
         for k, x in enumerate(xs):
             try:
                 hit = True if p is None else p(x)
-            except UserError as e:
+            except (UserError, RefRaise) as e:
                 return [], (k + 1, ("E", e.code))
             if hit:
                 return [(k + 1, name != "all")], (k + 1, "C")
@@ -325,26 +441,50 @@ def expected(spec, xs, term, pool):
         return at_completion(lambda: d)
     if name == "sum":
         return at_completion(lambda: sum(xs))
-    if name in ("min", "max"):
-        def v():
-            if not xs:
-                raise LookupError()
-            return min(xs) if name == "min" else max(xs)
-        return at_completion(v, -2)
-    if name in ("min_by", "max_by"):
-        key = spec[1]
+    if name in ("sum_key", "average_key"):
         keys = []
         for k, x in enumerate(xs):
             try:
-                keys.append(key(x))
+                keys.append(spec[1](x))
             except UserError as e:
                 return [], (k + 1, ("E", e.code))
+
+        def v():
+            if name == "sum_key":
+                return sum(keys)
+            if not keys:
+                raise LookupError()
+            return sum(keys) / float(len(keys))
+        return at_completion(v, -2)
+    if name in ("min", "max", "min_by", "max_by"):
+        # reference: Python's own min / max under functools.cmp_to_key(comparer) (first extremal element);
+        # min_by / max_by: every element whose key compares equal to the extremal key, in arrival order.
+        # Judged only when the comparer raises on no pair of keys of this input (otherwise: model only)
+        by = name.endswith("_by")
+        ref = spec[2] if by else spec[1]
+        keys = []
+        for k, x in enumerate(xs):
+            if by:
+                try:
+                    keys.append(spec[1](x))
+                except UserError as e:
+                    return [], (k + 1, ("E", e.code))
+            else:
+                keys.append(x)
+        if any(ref(a, b)[0] == "raise" for a in keys for b in keys):
+            return None
+        ck = functools.cmp_to_key(lambda a, b: ref(a, b)[1])
+
         def v():
             if not xs:
-                return []
-            best = min(keys) if name == "min_by" else max(keys)
-            return [x for x, kk in zip(xs, keys) if kk == best]
-        return at_completion(v)
+                if by:
+                    return []
+                raise LookupError()
+            best = (min if name.startswith("min") else max)(keys, key=ck)
+            if not by:
+                return best
+            return [x for x, kk in zip(xs, keys) if ref(kk, best)[1] == 0]
+        return at_completion(v, -2)
     if name == "average":
         def v():
             if not xs:
@@ -352,14 +492,27 @@ def expected(spec, xs, term, pool):
             return sum(xs) / float(len(xs))
         return at_completion(v, -2)
     if name == "sequence_equal":
-        second = spec[1]
+        second, ref = spec[1], spec[2]
         for k, x in enumerate(xs):
-            if k >= len(second) or not (second[k] == x):
+            if k >= len(second):
+                return [(k + 1, False)], (k + 1, "C")
+            r = ref(second[k], x)
+            if r[0] == "raise":
+                return [], (k + 1, ("E", r[1]))
+            if not r[1]:
                 return [(k + 1, False)], (k + 1, "C")
         if term == "C":
             return [(tin, len(xs) == len(second))], (tin, "C")
         return [], src_end()
     return None
+
+
+class RefRaise(Exception):
+    """the reference comparer says: raises (carries the code; does not touch the harness' raise bookkeeping)"""
+
+    def __init__(self, code):
+        super().__init__(code)
+        self.code = code
 
 
 def filt_prefix(xs, p, cut):
@@ -370,19 +523,287 @@ def filt_prefix(xs, p, cut):
     return out
 
 
+def gen_inputs_for(rng, p, maxlen=7):
+    if isinstance(p, NumPool):
+        return num_inputs(rng, p, maxlen)
+    return k2.gen_inputs(rng, p, maxlen)
+
+
+# --------------------------------------------------------------------------
+# sequence_equal with an OBSERVABLE second argument: two hand-driven hot sources
+# (k2m), machine Ops/SeqEqual.v, oracle written from the property text
+# --------------------------------------------------------------------------
+
+IMPORTS_SE = "Base.Prelude Base.CaseLib Ops.Machine Ops.Multi Ops.MultiCase Ops.SeqEqual"
+SE_MODES = ["random", "first_then_second", "second_then_first", "alternate", "alternate_from_second", "bursts"]
+
+
+def se_case(case_seed):
+    """everything about one case from its seed -> dict(cmp, coq, ref, kind, events, dispose_at, warmup, mode)"""
+    rng = random.Random(case_seed)
+    pool = Pool(HASHABLE_POOL)
+    K = pool.K
+    kind = rng.choice(["default", "default", "modm", "table"])
+    cls_tbl = "(tbl [" + "; ".join(f"({i}, Ok {c})" for i, c in enumerate(pool.cls)) + "] (Ok 0))"
+    if kind == "default":
+        cmp = None
+        ref = lambda a, b: ("ok", a == b)
+        g = (f"(fun a b => match {cls_tbl} a, {cls_tbl} b with Ok x, Ok y => Ok (x =? y) | _, _ => Raise 0 end)")
+    elif kind == "modm":
+        m = rng.choice([2, 3])
+        ref = lambda a, b: ("ok", pool.id(a) % m == pool.id(b) % m)
+        g = f"(fun a b => Ok ((a mod {m}) =? (b mod {m})))"
+    else:
+        p = k2.rand_pred(rng, pool, p_raise=0.25)
+        ref = lambda a, b: p.at((pool.id(a) + pool.id(b)) % K)
+        g = f"(fun a b => {p.gallina()} ((a + b) mod {K}))"
+    if kind != "default":
+        def cmp(a, b):
+            r = ref(a, b)
+            if r[0] == "raise":
+                raise UserError(r[1])
+            return r[1]
+    # the two sequences: the second is the first, often changed in one place / longer / shorter
+    small = rng.random() < 0.6
+    draw = (lambda: rng.randrange(6)) if small else (lambda: rng.randrange(K))
+    left = []
+    sticky = rng.random() < 0.4
+    for _ in range(rng.choice([0, 1, 1, 2, 2, 3, 3, 4, 5])):
+        left.append(left[-1] if (left and sticky and rng.random() < 0.5) else draw())
+    right = list(left)
+    r = rng.random()
+    if right and r < 0.22:
+        right[rng.randrange(len(right))] = draw()
+    elif r < 0.36:
+        right.append(draw())
+    elif right and r < 0.5:
+        right.pop()
+    elif r > 0.92:
+        right = [draw() for _ in range(rng.choice([0, 1, 2, 3]))]
+    streams = []
+    for k, ids in enumerate((left, right)):
+        st = [(k, ("N", pool.val(i))) for i in ids]
+        t = rng.random()
+        if t < 0.7:
+            st.append((k, ("C",)))
+        elif t < 0.82:
+            st.append((k, ("E", UserError(11 + k))))
+        if rng.random() < 0.12:      # non-conforming tail: must change nothing
+            st.append((k, rng.choice([("N", pool.val(draw())), ("C",), ("E", UserError(13))])))
+        streams.append(st)
+    mode = rng.choice(SE_MODES)
+    order = []
+    rest = [list(st) for st in streams]
+    if mode in ("first_then_second", "second_then_first"):
+        for k in ([0, 1] if mode == "first_then_second" else [1, 0]):
+            order.extend(rest[k])
+    elif mode.startswith("alternate"):
+        k = 0 if mode == "alternate" else 1
+        while rest[0] or rest[1]:
+            if rest[k]:
+                order.append(rest[k].pop(0))
+            k = 1 - k
+    else:
+        while rest[0] or rest[1]:
+            k = rng.choice([j for j in (0, 1) if rest[j]])
+            for _ in range(rng.randint(2, 3) if mode == "bursts" else 1):
+                if rest[k]:
+                    order.append(rest[k].pop(0))
+    events = [(10 * (i + 1), k, ev) for i, (k, ev) in enumerate(order)]
+    dispose_at = None
+    if events and rng.random() < 0.1:
+        dispose_at = rng.choice(events)[0]
+    warm = None
+    if rng.random() < 0.3:
+        warm = [(0, rng.randrange(2), ("N", pool.val(draw()))) for _ in range(rng.choice([1, 2, 3]))]
+        if rng.random() < 0.5:
+            warm.append((0, rng.randrange(2), rng.choice([("C",), ("E", UserError(14))])))
+    return dict(pool=pool, cmp=cmp, coq=f"x_sequence_equal {g}", ref=ref, kind=kind, events=events,
+                dispose_at=dispose_at, warmup=warm, mode=mode)
+
+
+def se_run(case):
+    import k2m
+    from reactivex import operators as ops
+
+    def build(env, ss):
+        if case["cmp"] is None:
+            return ss[0].pipe(ops.sequence_equal(ss[1]))
+        return ss[0].pipe(ops.sequence_equal(ss[1], case["cmp"]))
+    return k2m.run_multi(build, 2, case["events"], dispose_at=case["dispose_at"], warmup=case["warmup"])
+
+
+def se_decide(ref, L, R, done):
+    """what the two sequences seen so far decide: False | True | ('E', code) | None (nothing yet)"""
+    for i in range(min(len(L), len(R))):
+        r = ref(L[i], R[i])
+        if r[0] == "raise":
+            return ("E", r[1])
+        if not r[1]:
+            return False
+    if done[0] and len(R) > len(L):
+        return False
+    if done[1] and len(L) > len(R):
+        return False
+    if done[0] and done[1]:
+        return True
+    return None
+
+
+def se_oracle(case, res):
+    """-> (None | description, expected, observed).  Reference: after every delivered notification the
+    answer is re-computed from scratch from the two well-formed prefixes seen so far; the output must be
+    exactly [answer, completion] (or the error) at the FIRST position where an answer exists:
+      False  as soon as both i-th elements are present and differ, or one side is complete and the other longer;
+      True   when both sides are complete, equally long and pairwise equal;
+      error  a source's error (or the comparer's exception on the first pair it is asked about) passes through;
+    nothing before that position, nothing after it, nothing after dispose()."""
+    L, R = [], []
+    done, ended = [False, False], [False, False]
+    expected = None
+    for pos, (now, i) in enumerate(res["inputs"]):
+        tag = pos + 1
+        if i[0] == "dispose":
+            break
+        if i[0] != "src":
+            continue
+        k, ev = i[1], i[2]
+        if ended[k]:
+            continue                      # after a source's terminal: not part of a well-formed sequence
+        if ev[0] == "N":
+            (L if k == 0 else R).append(ev[1])
+        elif ev[0] == "E":
+            expected = [(tag, "E", k2.err_id(ev[1]))]
+            break
+        else:
+            done[k] = ended[k] = True
+        d = se_decide(case["ref"], L, R, done)
+        if d is not None:
+            expected = [(tag, "E", d[1])] if isinstance(d, tuple) else [(tag, "N", d), (tag, "C", None)]
+            break
+    observed = []
+    for (tag, kind, a, b) in res["log"]:
+        if kind == "emit":
+            observed.append((tag, a, k2.err_id(b) if a == "E" else b))
+    if res["escapes"]:
+        return (f"exception escaped into the emitter: {[repr(e) for _, e in res['escapes']]}", expected, observed)
+    exp = expected or []
+    if len(exp) != len(observed) or any(e != o or type(e[2]) is not type(o[2]) for e, o in zip(exp, observed)):
+        return ("output differs from the reference", exp, observed)
+    return (None, exp, observed)
+
+
+def seq_equal_obs(chk):
+    import k2m
+    n = 240 if chk.tier == "quick" else 4000
+    cases, nontrivial = [], set()
+    hist = {"modes": {}, "comparer": {}, "answer": {"True": 0, "False": 0, "error": 0, "none": 0},
+            "second_source_ahead_at_some_point": 0, "decided_before_any_completion": 0, "with_dispose": 0,
+            "resubscribed": 0}
+    for ci in range(n):
+        seed = chk.rng.getrandbits(48)
+        case = se_case(seed)
+        res = se_run(case)
+        chk.cov["evaluations"] += 1
+        if res["build_error"] is not None:
+            raise RuntimeError(f"sequence_equal(observable): build error {res['build_error']!r}")
+        pool = case["pool"]
+        gi = k2m.g_inputs(res["inputs"], enc_in=lambda v: gz(pool.id(v)))
+        gt = k2m.g_trace(res, gbool)
+        hist["modes"][case["mode"]] = hist["modes"].get(case["mode"], 0) + 1
+        hist["comparer"][case["kind"]] = hist["comparer"].get(case["kind"], 0) + 1
+        if case["dispose_at"] is not None:
+            hist["with_dispose"] += 1
+        if case["warmup"] is not None:
+            hist["resubscribed"] += 1
+        cnt = [0, 0]
+        ahead = False
+        for (_, i) in res["inputs"]:
+            if i[0] == "src" and i[2][0] == "N":
+                cnt[i[1]] += 1
+                ahead = ahead or cnt[1] > cnt[0]
+        hist["second_source_ahead_at_some_point"] += ahead
+        bad, exp, obs = se_oracle(case, res)
+        a = "none" if not exp else ("error" if exp[0][1] == "E" else str(exp[0][2]))
+        hist["answer"][a] += 1
+        if exp and exp[0][1] == "N":
+            before = [i for (_, i) in res["inputs"][:exp[0][0] - 1] if i[0] == "src" and i[2][0] == "C"]
+            last = res["inputs"][exp[0][0] - 1][1]
+            if not before and last[2][0] == "N":
+                hist["decided_before_any_completion"] += 1
+        if bad:
+            chk.violation(f"sequence_equal(observable)|{bad[:40]}|{gi}|{case['kind']}",
+                          {"family": "seq_equal_obs", "case_seed": seed, "machine": case["coq"],
+                           "inputs (now, event; ids into pool)": gi, "pool": [repr(v) for v in pool.values],
+                           "what": bad, "expected (tag, kind, payload)": repr(exp), "implementation": repr(obs),
+                           "oracle": se_oracle.__doc__}, size=len(res["inputs"]))
+        elif exp and len(res["inputs"]) >= 3:
+            nontrivial.add(gi + case["coq"])
+        cases.append((f"({case['coq']}, {gi})", gt))
+    prelude = "Definition model (c : machine Z bool * list (Z * inp Z)) := run_canon (fst c) (snd c).\n"
+    bad, logs = lib.correspondence("C06", "seqeq", IMPORTS_SE,
+                                   "(machine Z bool * list (Z * inp Z)) * list (nat * obs bool)",
+                                   "model", "(trace_eqb Bool.eqb)", cases, prelude=prelude)
+    chk.cov["traces_validated_against_impl"] += len(cases)
+    chk.cov["disagreements_checked"] += len(cases)
+    if bad:
+        firsts = [cases[i] for i in bad if i >= 0][:3]
+        d = {"n": len(bad), "first (machine+inputs, implementation trace)": firsts, "logs": logs[:1]}
+        if firsts:
+            d["model_says"] = lib.coq_show("C06", IMPORTS_SE, f"model {firsts[0][0]}", prelude)
+        chk.tie_broken("correspondence K2 two sources: x_sequence_equal (Ops/SeqEqual.v) vs implementation", d)
+    chk.add_samples([{"case": cases[0][0], "trace": cases[0][1]}], limit=7)
+    return nontrivial, hist
+
+
 def run(chk):
     chk.build_and_prove()
     pool, T = ops_table()
-    def gen(rng, p, maxlen=7):
-        if isinstance(p, NumPool):
-            return num_inputs(rng, p, maxlen)
-        return k2.gen_inputs(rng, p, maxlen)
-    C05.run_table(chk, "C06", pool, T, expected, IMPORTS, gen_inputs=gen)
+    C05.run_table(chk, "C06", pool, T, expected, IMPORTS, gen_inputs=gen_inputs_for)
+    nt, hist = seq_equal_obs(chk)
+    chk.cov["distinct_nontrivial_single_source_table"] = chk.cov["distinct_nontrivial"]
+    chk.cov["distinct_nontrivial_sequence_equal_observable"] = len(nt)
+    chk.cov["distinct_nontrivial"] += len(nt)
+    chk.cov["sequence_equal_observable"] = hist
+    chk.cov["rule"] += ("; comparer parameters are drawn from small families mirrored in Gallina: min / max / min_by / "
+                        "max_by -- default, reversed order, order of residues modulo m, magnitudes other than +-1, "
+                        "raising on some pairs (reference: Python min/max under functools.cmp_to_key, judged when the "
+                        "comparer raises on no pair of keys of the input); contains / sequence_equal -- default, same id "
+                        "modulo m, arbitrary symmetric relation that may raise; sum(key_mapper) / average(key_mapper) "
+                        "with integer-valued key tables over the pool values.  PLUS sequence_equal(observable): seeded "
+                        "pairs of sequences (the second = the first changed in one place / longer / shorter / "
+                        "unrelated) delivered by two hand-driven hot sources in 6 interleaving modes, terminals "
+                        "C/E/none per source, 12% non-conforming tails, 10% dispose, 30% after an abandoned earlier "
+                        "subscription; two-source machine Ops/SeqEqual.v compared on the whole boundary trace "
+                        "(emissions + subscribe/unsubscribe instants), oracle = answer recomputed from scratch after "
+                        "every notification (see sequence_equal_observable); non-trivial there = distinct (comparer, "
+                        "delivered inputs) of >= 3 notifications with a decided answer and the oracle satisfied")
     return chk.finish(trusted_extra=["hot-source K2 driver (harness/k2.py); callback tables mirrored in Gallina",
                                      "average: the model yields the exact pair (sum, count); the harness compares it "
-                                     "with the implementation's float as an exact fraction (ints below 2^53)"])
+                                     "with the implementation's float as an exact fraction (ints below 2^53)",
+                                     "two-source driver harness/k2m.py (run_multi) for sequence_equal(observable)"],
+                      assumptions=["comparers handed to the operators are symmetric in their arguments (the code calls "
+                                   "comparer(queued, arriving), i.e. with the two sides in either order); the property "
+                                   "text does not fix an argument order",
+                                   "the float path of average (non-integer elements) is not run: results are compared "
+                                   "as exact fractions of integers"])
 
 
 def replay(chk, path):
-    print(open(path).read())
-    return 1
+    d = json.load(open(path))
+    if d.get("family") == "seq_equal_obs":
+        case = se_case(d["case_seed"])
+        res = se_run(case)
+        bad, exp, obs = se_oracle(case, res)
+        import k2m
+        print(f"[C06] replay sequence_equal(observable)  machine: {case['coq']}")
+        print("  inputs        :", k2m.g_inputs(res["inputs"], enc_in=lambda v: gz(case["pool"].id(v))))
+        print("  implementation:", obs)
+        print("  expected      :", exp)
+        if bad:
+            print(f"VIOLATION property=C06 replay={path}")
+            return 1
+        print("[C06] the recorded case no longer fails on the current tree")
+        return 0
+    pool, T = ops_table()
+    return C05.replay_table(chk, path, "C06", pool, T, expected, gen_inputs_for)
